@@ -39,7 +39,7 @@ def layout(T):
     )
 
 
-def device(loop_phases, T=259):
+def device(loop_phases, T=259, ranges=True):
     spec = {
         "target": "borealis",
         "layout": layout(T),
@@ -52,6 +52,8 @@ def device(loop_phases, T=259):
             "r2": [[-PI / 2, PI / 2]], "bs2": [[0, PI / 2]], "loop2_phase": [loop_phases[2]],
         },
     }
+    if not ranges:
+        spec["gate_parameters"] = None  # a device that publishes no ranges: only the layout check remains
     cert = {"target": "borealis", "loop_phases": list(loop_phases), "squeezing_parameters_mean": {"low": 0.712, "high": 1.019, "medium": 1.212},
             "common_efficiency": 0.551, "loop_efficiencies": [0.941, 0.914, 0.876], "relative_channel_efficiencies": [0.9] * 16, "schmidt_number": 1.3}
     return sf.Device(spec=spec, cert=cert)
@@ -75,15 +77,19 @@ def user_args(comp, rpat, bspat):
     return {"Sgate": [1.019] * comp, "loops": {k: {"Rgate": rvals(k), "BSgate": bsvals(k)} for k in range(3)}}
 
 
-def build_program(arg_list, user_offsets, loop_phases):
+WRONG_FIXED = ["s.phi", "bs0.phi", "bs1.phi", "bs2.phi"]
+
+
+def build_program(arg_list, user_offsets, loop_phases, wrong=None):
+    """wrong: name of one hard-coded layout argument that the source sets to a different value"""
     prog = sf.TDMProgram(NCONC)
     with warnings.catch_warnings():
         warnings.simplefilter("ignore")
         with prog.context(*arg_list) as (p, q):
-            ops.Sgate(p[0]) | q[NIDX[0]]
+            ops.Sgate(p[0], 0.5 if wrong == "s.phi" else 0.0) | q[NIDX[0]]
             for i in range(3):
                 ops.Rgate(p[2 * i + 1]) | q[NIDX[i]]
-                ops.BSgate(p[2 * i + 2], PI / 2) | (q[NIDX[i + 1]], q[NIDX[i]])
+                ops.BSgate(p[2 * i + 2], 0.3 if wrong == f"bs{i}.phi" else PI / 2) | (q[NIDX[i + 1]], q[NIDX[i]])
                 if user_offsets:
                     ops.Rgate(loop_phases[i]) | q[NIDX[i]]
             ops.MeasureFock() | q[0]
@@ -129,10 +135,10 @@ def same_statistics(Va, Vb):
     return True, ""
 
 
-def check(loop_phases, comp, rpat, bspat, prepared, user_offsets, res):
+def check(loop_phases, comp, rpat, bspat, prepared, user_offsets, res, wrong=None, ranges=True):
     from strawberryfields.tdm import utils as tu
 
-    case = {"borealis": True, "loop_phases": list(loop_phases), "comp": comp, "rpat": rpat, "bspat": bspat, "prepared": prepared, "user_offsets": user_offsets}
+    case = {"borealis": True, "loop_phases": list(loop_phases), "comp": comp, "rpat": rpat, "bspat": bspat, "prepared": prepared, "user_offsets": user_offsets, "wrong": wrong, "ranges": ranges}
     dev = device(loop_phases)
     ua = user_args(comp, rpat, bspat)
     with warnings.catch_warnings():
@@ -146,7 +152,9 @@ def check(loop_phases, comp, rpat, bspat, prepared, user_offsets, res):
     T = len(ideal_list[0])
     src_list = [list(map(float, a)) for a in src_list]
     ideal_list = [list(map(float, a)) for a in ideal_list]
-    prog = build_program(src_list, user_offsets, loop_phases)
+    prog = build_program(src_list, user_offsets, loop_phases, wrong)
+    if not ranges:
+        dev = device(loop_phases, ranges=False)
     compiler_db["borealis"].reset_circuit()
     try:
         with warnings.catch_warnings():
@@ -161,12 +169,17 @@ def check(loop_phases, comp, rpat, bspat, prepared, user_offsets, res):
     except (CircuitError, ValueError) as e:
         in_range_src = all(-PI / 2 - 1e-9 <= v <= PI / 2 + 1e-9 for k in (1, 3, 5) for v in src_list[k])
         res.stats["borealis_rejected"] += 1
+        if wrong:
+            return True
         if in_range_src and not user_offsets:
             res.violation("C12|borealis|rejects-admissible", f"borealis compiler rejected an in-range program (loop phases {loop_phases}, {comp} modes, r {rpat}, bs {bspat}, prepared={prepared}): {str(e)[:160]}", case)
         return False
     except Exception as e:
         res.violation(f"C12|borealis|crash|{type(e).__name__}", f"borealis compile raised {type(e).__name__}: {str(e)[:160]}", case)
         return False
+    if wrong:
+        res.violation("C12|borealis|fixed-parameter-ignored", f"the source sets the layout's hard-coded argument {wrong} to a different value, yet the borealis compiler accepted the program (no CircuitError)", case)
+        return True
     # layout conformance: command classes and modes of the compiled rolled circuit == layout order
     got = [(c.op.__class__.__name__, tuple(r.ind for r in c.reg)) for c in out.circuit]
     exp = [("Sgate", (43,)), ("Rgate", (43,)), ("BSgate", (42, 43)), ("Rgate", (43,)), ("Rgate", (42,)), ("BSgate", (36, 42)), ("Rgate", (42,)), ("Rgate", (36,)), ("BSgate", (0, 36)), ("Rgate", (36,)), ("MeasureFock", (0,))]
@@ -234,6 +247,12 @@ def cases(quick):
                     for prepared in (False, True):
                         for uo in (False, True):
                             out.append((cert, comp, rpat, bspat, prepared, uo))
+    # sources that deviate from the layout in one hard-coded argument: must be refused
+    for cert in certs[:1] + certs[-1:]:
+        for w in WRONG_FIXED:
+            for uo in (False, True):
+                for ranges in (True, False):
+                    out.append((cert, 3, "const", "half", True, uo, w, ranges))
     return out
 
 
@@ -241,7 +260,7 @@ def work(task):
     res = Res()
     for c in task:
         res.n += 1
-        if check(*c, res):
+        if check(*c[:6], res, *c[6:]):
             res.nt += 1
             res.sample({"borealis": True, "loop_phases": list(c[0]), "computational_modes": c[1], "r": c[2], "bs": c[3], "prepared_by_full_compile": c[4], "user_offset_gates": c[5]}, cap=1)
     return res
@@ -249,5 +268,5 @@ def work(task):
 
 def replay(case):
     res = Res()
-    check(tuple(case["loop_phases"]), case["comp"], case["rpat"], case["bspat"], case["prepared"], case["user_offsets"], res)
+    check(tuple(case["loop_phases"]), case["comp"], case["rpat"], case["bspat"], case["prepared"], case["user_offsets"], res, case.get("wrong"), case.get("ranges", True))
     return [(s, w) for s, w, _ in res.viol]
